@@ -55,6 +55,7 @@ struct Call {
   int want_status = 0;    // wait status the script produces (-1: the child hangs and is ended by the timeout)
   int variant = 0;
   int ctx = CTX_PLAIN;
+  int closed_fds = 0;     // environment: bit i set = the caller's descriptor i (0/1/2) is closed when the call is made
   void (*body)(Life&) = nullptr;  // API_SUB: a fixed program of Subprocess operations
   const char* body_name = "";
 };
@@ -100,6 +101,7 @@ std::string describe_call(const Call& c) {
   if (c.variant & V_STDERR_DEVNULL) s += ", stderr_fd=/dev/null";
   if (c.variant & V_FORK_FAILS) s += ", fork() fails";
   if (c.ctx) s += std::string(", called ") + kCtxName[c.ctx];
+  if (c.closed_fds) s += std::string(", caller's descriptors {") + (c.closed_fds & 1 ? "0 " : "") + (c.closed_fds & 2 ? "1 " : "") + (c.closed_fds & 4 ? "2 " : "") + "} closed";
   s += ") child script [ " + describe_script(c.script) + "]";
   return s;
 }
@@ -216,11 +218,18 @@ Outcome run_call(const Call& sc, const std::string& vchild, int ambient_errno) {
   P.script = sc.script;
   P.fail_fork = (sc.variant & V_FORK_FAILS) != 0;
   P.eintr_rw = sc.api == API_RUN;
+  P.timeout_hint = sc.timeout;
   g_bad_kill = 0;
   __real_gettimeofday(&P.base, nullptr);
   std::string payload = payload_of(sc.payload);
   std::string cwd = "/";
   std::unordered_map<std::string, std::string> envmap = {{"C15_VAR", "x"}};
+  // environment: the caller's own descriptors 0/1/2 (kept at high numbers meanwhile and put back afterwards)
+  int saved_low[3] = {-1, -1, -1};
+  for (int fd = 0; fd < 3; fd++) if (sc.closed_fds & (1 << fd)) {
+    saved_low[fd] = fcntl(fd, F_DUPFD_CLOEXEC, 300);
+    if (saved_low[fd] >= 0) __real_close(fd);
+  }
   std::set<int> before = list_fds();
   SubprocessResult res;
   std::string comm_out, threw, aborted;
@@ -279,7 +288,18 @@ Outcome run_call(const Call& sc, const std::string& vchild, int ambient_errno) {
     if (returned) finish("run_process:returned-although-fork-failed", "fork() failed but run_process returned normally");
   } else {
     if (g_bad_kill) finish(std::string(api) + ":kill-wrong-pid", vf::fmt("kill() was aimed at pid %d, which is not the child (%d); the harness did not deliver it", (int)g_bad_kill_pid, (int)pid));
-    bool ended_by_timeout = sc.want_status == -1;
+    // the child must have started with all three standard streams (the Subprocess constructor sets them up)
+    if (P.fdmask >= 0 && P.fdmask != 7) {
+      int missing = !(P.fdmask & 1) ? 0 : !(P.fdmask & 2) ? 1 : 2;
+      static const char* const nm[3] = {"stdin", "stdout", "stderr"};
+      finish(std::string(api) + ":child-" + nm[missing] + "-missing", vf::fmt("the child started without an open %s (descriptors open in the child at start: %s%s%s): %s", nm[missing], P.fdmask & 1 ? "0 " : "", P.fdmask & 2 ? "1 " : "", P.fdmask & 4 ? "2 " : "",
+          missing == 0 ? "the payload cannot be delivered" : "whatever it writes there is lost"));
+    }
+    // every system call of the parent costs 1 virtual us (at most SYSCALL_CAP per call): a timeout that small may
+    // expire although the child does not hang; ending the child after the timeout has expired is then legitimate
+    bool tiny_timeout = sc.timeout && sc.timeout <= SYSCALL_CAP;
+    bool comm_timed_out = threw.find("timed out") != std::string::npos;
+    bool ended_by_timeout = sc.want_status == -1 || (tiny_timeout && (sc.api == API_RUN ? P.killed_by_parent : sc.api == API_COMM && comm_timed_out && P.vclock >= sc.timeout));
     bool script_done = steps_done >= sc.script.size() || ended_by_timeout;
     int want = ended_by_timeout ? (P.ignores_term ? SIGKILL : SIGTERM) : sc.want_status;
     // a kill while the child was still running is legitimate only after the timeout has expired (virtual clock)
@@ -309,7 +329,7 @@ Outcome run_call(const Call& sc, const std::string& vchild, int ambient_errno) {
         else if ((size_t)P.in_total != payload.size() || P.in_hash != fnv(payload)) finish("run_process:payload-not-delivered", vf::fmt("the child received %lld bytes of the %zu-byte payload%s", (long long)P.in_total, payload.size(), (size_t)P.in_total == payload.size() ? " (content differs)" : ""));
       }
     } else if (sc.api == API_COMM) {
-      bool timed_out = threw.find("timed out") != std::string::npos;
+      bool timed_out = comm_timed_out;
       if (!threw.empty() && !(ended_by_timeout && timed_out)) finish(timed_out ? "communicate:spurious-timeout" : "communicate:unexpected-exception", "threw: " + threw.substr(0, 200) + vf::fmt(" (virtual time elapsed: %llu us, deadline %llu us)", (unsigned long long)P.vclock, (unsigned long long)sc.timeout));
       check_kills();
       if (returned && ended_by_timeout) finish("communicate:returned-before-child-finished", "returned normally although the child never finished");
@@ -343,6 +363,7 @@ Outcome run_call(const Call& sc, const std::string& vchild, int ambient_errno) {
     // the environment class of the failing execution is part of the key (a different defect gets a different key)
     if (sc.timeout >= (1ull << 62)) o.key += "+huge-timeout";
     for (int s : {(int)EI_READ, (int)EI_WRITE, (int)EI_WAITPID, (int)EI_POLL}) if (P.eintr_given[s]) { o.key += std::string("+eintr-") + kEintrName[s]; break; }
+    if (sc.closed_fds) o.key += "+low-fds-closed";
     if (sc.ctx) o.fail += std::string(" [called ") + kCtxName[sc.ctx] + "]";
   }
   // ---- cleanup (whatever happened) ----
@@ -357,6 +378,7 @@ Outcome run_call(const Call& sc, const std::string& vchild, int ambient_errno) {
   __real_close(ap[0]);
   if (devnull >= 0) __real_close(devnull);
   for (int fd : list_fds()) if (!before.count(fd)) __real_close(fd);
+  for (int fd = 0; fd < 3; fd++) if (saved_low[fd] >= 0) { dup2(saved_low[fd], fd); __real_close(saved_low[fd]); }
   return o;
 }
 
